@@ -135,7 +135,9 @@ func checkC07(e *Env) {
 		if wrapper {
 			// interposer modes: plain recording, fragmented reads, a failing read
 			mode := "1"
-			switch (p / 2) % 6 {
+			switch (p / 2) % 7 {
+			case 6:
+				mode = "gc" // fragmented reads with a completed garbage collection before each
 			case 5:
 				mode = "tempfail:" + itoa(1+(p*5)%calls)
 			case 4:
